@@ -321,7 +321,14 @@ def handle : List String → String
         let h := match fileTermOrdOrNext d.locateKey skip f k with
           | none => "Z"
           | some h => showHit h
-        s!"{a}/{h}"))
+        let vals : List UInt8 → List Nat :=
+          if kind == "void" then (fun p => (decodeBlockKeys p).map (fun _ => 0))
+          else if kind == "u64" then (fun p => (loadU64Mono p).1) else (fun p => (loadRange p).1.map (·.1))
+        let g := match fileGet d.locateKey skip vals f k with
+          | none => "Z"
+          | some none => "-"
+          | some (some v) => s!"v{v}"
+        s!"{a}/{h}/{g}"))
     | _, _, _, _ => "bad-op"
   | ["bitpack", vs, ws] =>
     match valList vs, valList ws with
